@@ -99,6 +99,7 @@ func (fc *FnCtx) execRangeMap(st *State, x *ast.RangeStmt, m *MapV, ls *LoopSpec
 	targets := fc.assignedIn(x.Body)
 	head := st.Clone()
 	fc.havoc(head, targets, ls.ModExtra)
+	fc.havocGhosts(head, x.Body)
 	fc.assumeInvariants(head, ls, nil)
 	var outs []Outcome
 	body := head.Clone()
